@@ -1,18 +1,21 @@
 (* Corr/C04.v — correspondence glue: evaluates the TunnelOpen model on a table cell observed on the real code. *)
-From TX Require Import Base.Threads Base.Val Model.TunnelOpen Model.TunnelRace.
+From TX Require Import Base.Threads Base.Val Model.TunnelOpen Model.TunnelRace Model.TunnelCross.
 
 (* case value: [ [validate_first; secret_isvalid] ; [id; mid; secret; resume; mstate; tstate] ; [ack; role; entitled] ]
    ack: 0 none 1 success 2 failure;  role: 0 not attached, 1 source of the existing bridge, 2 target of the existing
    bridge, 3 source of a new bridge, 4 forwarded to the tunnel's node *)
 Definition dec_variant (v : tval) : variant :=
   {| v_validate_first := vbool (vnth 0 v); v_secret_isvalid := vbool (vnth 1 v) |}.
+Definition dec_mstate (k : N) : t_mstate :=
+  match k with 0 => MActive | 1 => MRevoked | 2 => MExpired | 3 => MInactive | 4 => MMissing | 5 => MExp25s | 6 => MExp10s
+             | 7 => MExp2s | 8 => MExp1ms | _ => MSoon60s end%N.
 Definition dec_cell (v : tval) : cell :=
   {| ce_id := match vn (vnth 0 v) with 0 => IdNone | 1 => IdHalf | 2 => IdListen | 3 => IdTarget | _ => IdStranger end%N;
      ce_mid := match vn (vnth 1 v) with 0 => MidNone | 1 => MidTunnel | _ => MidOther end%N;
      ce_secret := match vn (vnth 2 v) with 0 => SNone | 1 => SRight | 2 => SWrong | 3 => SPrefix1 | 4 => SPrefixAll | 5 => SSuffix
                                           | 6 => SPlus | 7 => SCase | 8 => SOneChar | _ => SOther end%N;
      ce_resume := vbool (vnth 3 v);
-     ce_mstate := match vn (vnth 4 v) with 0 => MActive | 1 => MRevoked | 2 => MExpired | 3 => MInactive | _ => MMissing end%N;
+     ce_mstate := dec_mstate (vn (vnth 4 v));
      ce_tstate := match vn (vnth 5 v) with 0 => TNone | 1 => TWaiting | 2 => TServed | _ => TRemote end%N |}.
 
 Definition expected (o : outcome) : N * N :=
@@ -42,8 +45,7 @@ Open Scope N_scope.
    connection of step i is connref i+1; tunnels are 7 and 8; clients L=11 T=12 S=13 X=14; M1=(11,12,101) M2=(13,14,102);
    after every step the routing poll of every parked request fires once (EResolve), as the harness awaits it *)
 Definition h_client (who : N) : client := match who with 2 => 11 | 3 => 12 | 4 => 13 | 5 => 14 | _ => 0 end.
-Definition h_state (k : N) : t_mstate :=
-  match k with 0 => MActive | 1 => MRevoked | 2 => MExpired | 3 => MInactive | _ => MMissing end.
+Definition h_state (k : N) : t_mstate := dec_mstate k.
 Definition h_mapping (m : N) (st : t_mstate) : option mapping :=
   if N.eqb m 1 then mk_mapping 11 12 101 st else mk_mapping 13 14 102 st.
 Definition h_db0 : db := fun m => if N.eqb m 1 then h_mapping 1 MActive else if N.eqb m 2 then h_mapping 2 MActive else None.
@@ -122,12 +124,33 @@ Definition is_race (v : tval) : bool := N.eqb (vn (vnth 0 (vnth 1 v))) 98.
 Definition check_race (v : tval) : bool := nlist_eqb (race_model v) (map vn (vl (vnth 5 v))).
 Close Scope N_scope.
 
+(* ---- two-node record race (harness/cmd/c04/xnode.go, fixed shape) ---------------------------------------------
+   case value: [ [validate_first; secret_isvalid] ; [97; rec_first] ; P ; Q ; R ; [gated] ; [bridge mapping; bridge source; record mapping; R forwarded] ]
+   P, Q = [who; mid; secret] source-side requests on node A for tunnel 9 (P is connection 1, Q is connection 2; with gated = 1 P is parked
+   after its lookups while Q runs, else P runs entirely first); R = target-side request on node B (connection 3), after both *)
+Open Scope N_scope.
+Definition cross_thread (k : xkind) (cr : N) (v : tval) : xlocal :=
+  let who := vn (vnth 0 v) in
+  xthread k cr {| c_registered := negb (N.eqb who 0); c_client := h_client who |} (h_req (vn (vnth 1 v)) (vn (vnth 2 v)) 2).
+Definition cross_model (v : tval) : list N :=
+  let xv := {| rec_first := vbool (vnth 1 (vnth 1 v)) |} in
+  let sched := (if vbool (vnth 0 (vnth 5 v)) then [0; 1; 1; 1; 0; 0; 2; 2] else [0; 0; 0; 1; 1; 1; 2; 2])%nat in
+  let s := xrun xv h_db0 (xinit [cross_thread KSource 1 (vnth 2 v); cross_thread KSource 2 (vnth 3 v); cross_thread KRemote 3 (vnth 4 v)]) sched in
+  let sh := fst s in
+  match x_tun sh 9 with
+  | Some b => [b_mid b; optn (b_src b); optn (x_rec sh 9); (if N.eqb (optn (b_tgt b)) 3 then 1 else 0)]
+  | None => [0; 0; optn (x_rec sh 9); 0]
+  end.
+Definition is_cross (v : tval) : bool := N.eqb (vn (vnth 0 (vnth 1 v))) 97.
+Definition check_cross (v : tval) : bool := nlist_eqb (cross_model v) (map vn (vl (vnth 6 v))).
+Close Scope N_scope.
+
 Definition check (v : tval) : bool :=
-  if is_hist v then check_hist v else if is_race v then check_race v else
+  if is_hist v then check_hist v else if is_race v then check_race v else if is_cross v then check_cross v else
   let '((ack, role), ent) := model_obs v in
   let o := vnth 2 v in
   N.eqb ack (vn (vnth 0 o)) && N.eqb role (vn (vnth 1 o)) && Bool.eqb ent (vbool (vnth 2 o)).
 
 Definition predict (v : tval) : tval :=
-  if is_hist v then predict_hist v else if is_race v then VL (map VN (race_model v)) else
+  if is_hist v then predict_hist v else if is_race v then VL (map VN (race_model v)) else if is_cross v then VL (map VN (cross_model v)) else
   let '((ack, role), ent) := model_obs v in VL [VN ack; VN role; vN_of_bool ent].
